@@ -65,6 +65,12 @@ class Check:
             'unmodelled construct is ANALYSIS-ERROR (exit 2), never a verdict',
             'names are resolved by the static repository model (imports, '
             'static C3 MRO, class-level constants)',
+            'a rule decided by abstract interpretation of a function on scenarios '
+            '(small heaps, token streams, scripted files) holds for the enumerated '
+            'scenario family, which is named in the rule text and in the instance '
+            'keys - it is a necessary condition of the property, not the property '
+            'for every input; an outcome the interpretation cannot determine ends '
+            'the run with ANALYSIS-ERROR (exit 2)',
         ]
         self._model = None
 
